@@ -68,7 +68,15 @@ pub fn check_forget(rep: &mut Report, p: &Params, prefix: &[In], suffix_ext: &[I
                 let hs = (dd(os.v[1]) - dd(os.v[2])) / dd(2.0);
                 cmp.push(("halfwidth_sq", (ha.sqr() - hs.sqr()).abs().to_f64(), tq * m * m * (p.k * p.k).max(1.0), 0.0));
             }
-            Kind::Roc | Kind::Er => cmp.push(("value", (dd(oa.v[0]) - dd(os.v[0])).abs().to_f64(), tq * r.c[0].min(1e6).max(1.0) * r.scale, 0.0)),
+            Kind::Roc | Kind::Er => {
+                // neither keeps a running accumulator: exact agreement, non-finite values included
+                let same = oa.v[0] == os.v[0] || (oa.v[0].is_nan() && os.v[0].is_nan());
+                if oa.v[0].is_finite() && os.v[0].is_finite() {
+                    cmp.push(("value", (dd(oa.v[0]) - dd(os.v[0])).abs().to_f64(), tq * r.c[0].min(1e6).max(1.0) * r.scale, 0.0));
+                } else {
+                    cmp.push(("value", if same { 0.0 } else { f64::INFINITY }, 0.0, 0.0));
+                }
+            }
             Kind::Cci | Kind::Mfi => {
                 if r.degenerate {
                     // neutral value expected from both
@@ -85,7 +93,7 @@ pub fn check_forget(rep: &mut Report, p: &Params, prefix: &[In], suffix_ext: &[I
             rep.evaluations += 1;
             let key = format!("c17.{}.{}", kind.name(), name);
             rep.ratio(&key, if tol > 0.0 { err / tol } else if err == 0.0 { 0.0 } else { f64::INFINITY });
-            let nan_mismatch = oa.v[0].is_nan() != os.v[0].is_nan();
+            let nan_mismatch = oa.v[0].is_nan() != os.v[0].is_nan() && !matches!(kind, Kind::Roc | Kind::Er);
             if nan_mismatch || !(err <= tol) {
                 let sig = format!("{}/c17.{}/{}/{}", kind.name(), name, if exact { "not_exact" } else { "mismatch" }, tag);
                 if rep.is_new_sig(&sig) {
@@ -174,7 +182,17 @@ pub fn run(ctx: &Ctx) -> Report {
         };
         // the comparison-only and accumulating indicators are sign-agnostic: a fifth of their scalar pairs
         // are shifted so that histories cross zero and contain exact zeros (ratio oscillators keep positive prices)
-        let (prefix, suffix_ext) = if !bars && r % 5 == 4 && !matches!(kind, Kind::Roc | Kind::Er) {
+        let zeroed_ratio = !bars && r % 5 == 4 && matches!(kind, Kind::Roc | Kind::Er);
+        let (prefix, suffix_ext) = if zeroed_ratio {
+            // exact zeros sprinkled into prefix and suffix: the reference price may be 0 (ROC = inf / NaN);
+            // whatever the value, it may only depend on the last n+1 inputs
+            let z = |k: usize, v: &In| match v {
+                In::S(x) => In::S(if k % 5 == 2 { 0.0 } else { *x }),
+                b => *b,
+            };
+            rep.count("pairs.ratio_with_exact_zeros");
+            (prefix.iter().enumerate().map(|(k, v)| z(k, v)).collect::<Vec<In>>(), suffix_ext.iter().enumerate().map(|(k, v)| z(k + 1, v)).collect::<Vec<In>>())
+        } else if !bars && r % 5 == 4 {
             let shift = level * 40.0;
             let f = |v: &In| match v {
                 In::S(x) => In::S(if (x - shift).abs() < 0.02 * shift { 0.0 } else { x - shift }),
